@@ -151,7 +151,9 @@ func (e *vFilterEnv) observe(prop string) {
 }
 
 func vPickFilter(tag string) filter.Filter {
-	switch zzverif.NondetInt(tag, 0, 3) {
+	switch zzverif.NondetInt(tag, 0, 4) {
+	case 4:
+		return filter.All() // the initial filter of the deferred variant (and "accept none" for the immediate one)
 	case 0:
 		return symFilter{0}
 	case 1:
@@ -212,19 +214,47 @@ func VerifC06_Immediate() { vC06(false) }
 func VerifC06_Deferred()  { vC06(true) }
 
 // VerifC07: ready subscription, nothing in flight; Refilter(f2) [, Refilter(f3)].
-func VerifC07_Refilter() {
+func VerifC07_Refilter() { vC07(false) }
+
+// VerifC07_Deferred: the same for a for-filter subscription that became ready
+// through its first Refilter.
+func VerifC07_Deferred() { vC07(true) }
+
+func vC07(deferred bool) {
 	P := zzverif.Param("P", 2)
-	e := newFilterEnv(false, symFilter{0}, 8)
+	var f0 filter.Filter = symFilter{0}
+	if deferred {
+		f0 = filter.All()
+	}
+	e := newFilterEnv(deferred, f0, 8)
 	n := zzverif.NondetInt("parent.n", 0, P)
 	for i := 0; i < n; i++ {
 		e.parentChange()
 	}
-	e.parentReady()
+	if deferred && zzverif.NondetInt("filter-first", 0, 1) == 1 {
+		e.refilter(symFilter{0}) // the filter arrives before the parent is ready
+		e.parentReady()
+	} else {
+		e.parentReady()
+		if deferred {
+			zzverif.Quiesce()
+			e.refilter(symFilter{0}) // the first Refilter makes it ready
+		}
+	}
 	zzverif.Quiesce()
 	zzverif.Assert(vClosed(e.fs.Ready()), "C07/ready")
 	before := vListEnts(e.fs.Cache(), "harness/own-list")
 	par := vListEnts(e.pcache, "harness/parent-list")
 
+	// events of the readiness transition are not part of any refilter delta
+	for {
+		select {
+		case <-e.fs.Events():
+			continue
+		default:
+		}
+		break
+	}
 	steps := zzverif.NondetInt("steps", 1, zzverif.Param("STEPS", 2))
 	first := before
 	var prev filter.Filter = symFilter{0}
@@ -311,4 +341,57 @@ func VerifC07_Refilter() {
 		zzverif.Reach("C07/restore")
 		zzverif.Assert(vSameContent(first, before), "C07/restore")
 	}
+}
+
+// VerifC06_Nested: a filtered subscription below a filtered clone: the two
+// filters compose as conjunction over the root parent's content.
+func VerifC06_Nested() {
+	K := zzverif.Param("KN", 2)
+	e := newFilterEnv(false, symFilter{0}, 4*K+4)
+	n0 := zzverif.NondetInt("parent.n0", 0, 1)
+	for i := 0; i < n0; i++ {
+		e.parentChange()
+	}
+	fc := newFilterPublisher(vLog{}, e.fs)
+	inner, err := fc.SubscribeWithFilter(symFilter{1})
+	zzverif.Assert(err == nil, "harness/subscribe")
+	var innerF filter.Filter = symFilter{1}
+	for i := 0; i < K; i++ {
+		switch zzverif.NondetInt("action", 0, 3) {
+		case 0:
+			if e.pready {
+				zzverif.Assume(false)
+			}
+			e.parentReady()
+		case 1:
+			e.parentChange()
+		case 2:
+			e.refilter(symFilter{2}) // the outer filter changes
+		default:
+			innerF = symFilter{3}
+			zzverif.Assert(inner.Refilter(innerF) == nil, "harness/refilter")
+		}
+	}
+	zzverif.Quiesce()
+	if !vClosed(inner.Ready()) {
+		zzverif.Assert(!e.pready, "C06/conjunction/ready")
+		return
+	}
+	par := vListEnts(e.pcache, "harness/parent-list")
+	own := vListEnts(inner.Cache(), "harness/own-list")
+	n := 0
+	for _, p := range par {
+		o, present := vFind(own, p)
+		if zzverif.And(e.cur.Accept(p.obj), innerF.Accept(p.obj)) {
+			n++
+			zzverif.Assert(present, "C06/conjunction/accepted-present")
+			if present {
+				zzverif.Assert(zzverif.And(o.obj == p.obj, o.ver == p.ver), "C06/conjunction/parent-version")
+			}
+		} else {
+			zzverif.Assert(!present, "C06/conjunction/rejected-absent")
+		}
+	}
+	zzverif.Assert(len(own) == n, "C06/conjunction/nothing-else")
+	zzverif.Reach("C06/nested-ready")
 }
